@@ -251,7 +251,8 @@ def enabled_devs(prop: str) -> list:
 
 
 def validate_traces(module: str, events: list, prop: str, shards: int = 16, per_shard_max: int = 20000,
-                    cfg: str | None = None, xmx: str = "3g", timeout: int = 3600, devs: list | None = None) -> dict:
+                    cfg: str | None = None, xmx: str = "3g", timeout: int = 3600, devs: list | None = None,
+                    min_per_shard: int = 200) -> dict:
     """Stage C. Shard events, run the trace spec under TLC (one JVM per shard, -workers 1), collect verdicts.
 
     Returns dict(n, ok, known: {dev: [tids]}, violations: [(tid, clause...)], states, distinct).
@@ -262,7 +263,7 @@ def validate_traces(module: str, events: list, prop: str, shards: int = 16, per_
     n = len(events)
     if n == 0:
         return dict(n=0, ok=0, known={}, violations=[], states=0, distinct=0, wall=0.0)
-    nsh = max(1, min(shards, (n + 199) // 200))
+    nsh = max(1, min(shards, (n + min_per_shard - 1) // min_per_shard))
     nsh = max(nsh, (n + per_shard_max - 1) // per_shard_max)
     chunks = [events[i::nsh] for i in range(nsh)]
     wd = workdir()
